@@ -17,6 +17,43 @@ CHECKS = {
         note='Trusted: the harness ledger (Fractions), the stub data handler, the recorder wrapped around '
              'Portfolio.transact_asset. Values outside the alphabet are not covered.',
         design='5/C01'),
+    'C02': dict(
+        technique='explicit-state BFS over real broker/portfolio histories vs exact holdings ledger',
+        text='Every history of submissions, clock updates (marks then fills), quote switches and portfolio-level '
+             'price marks up to the stated depth on two portfolios (from a flat and from a long/short initial '
+             'state) is executed on the real code; after every transition the holdings report (membership, '
+             'quantity, market value at the last price seen), total market value and total equity are compared '
+             'with the ledger built from the fills as recorded.',
+        note='Trusted: harness ledger, stub data handler (mid = (bid+ask)/2), transact_asset recorder. Close-to-zero, '
+             're-open and flip-through-zero are reachable within depth 2 by construction of the quantities (2,3,5).',
+        design='5/C02'),
+    'C04': dict(
+        technique='explicit-state BFS over submit/clock-update interleavings with real SimulatedExchange',
+        text='All interleavings of order submissions (2 portfolios x 2 assets x buy/sell) with clock updates to every '
+             'instant of a 10-instant horizon (both boundaries 14:30:00 and 21:00:00, one second either side, '
+             'Saturday, Sunday, Monday) and quote switches up to the stated depth; per transition: pending queues, '
+             'the exact set/order of fills of that update (once, in full, sells first, submission order), nothing '
+             'filled while closed.',
+        note='Trusted: reference exchange hours computed from datetime fields; pending orders are read from '
+             'SimulatedBroker.open_orders. Cross-portfolio same-side order is not compared.',
+        design='5/C04'),
+    'C05': dict(
+        technique='exhaustive product enumeration of fills on the real broker vs documented fee rule',
+        text='Full product of 26 fee configurations x 4 quote tables (crossed and sub-dollar included) x assets x signed '
+             'quantities x open instants, plus buy+sell batches: each point is submit + update on the real broker; price '
+             'side, commission = (c+t) x |round(price x qty)|, non-negativity, buy/sell symmetry and time stamp checked.',
+        note='Trusted: stub data handler with bid != ask; exact Fraction arithmetic for the expected commission; ties '
+             'in consideration rounding accept both neighbours.',
+        design='5/C05'),
+    'C15': dict(
+        technique='explicit-state BFS for the reachable states + exhaustive fault injection at every state',
+        text='The reachable states of valid broker histories (3 initial states, stated depth) are enumerated; at each one '
+             'every refusal kind named by the property is injected on a fresh rebuild: documented error type, no silent '
+             'acceptance, full before/after snapshot equality (cash, holdings, pending orders, history) and a one-step '
+             'differential when private state differs.',
+        note='Trusted: snapshot covers exactly the observables the statement lists; private clocks are not compared. '
+             'One fault per path (a refused fault is proved to change nothing, so sequences reduce to this case).',
+        design='5/C15'),
 }
 
 NOT_YET = 'check not built yet (work in progress, see DESIGN.md section 5)'
